@@ -3,6 +3,7 @@ package compile
 // C20 — schema filters prune top-down and change nothing else.
 
 import (
+	"encoding/xml"
 	"sort"
 	"strconv"
 	"strings"
@@ -164,28 +165,51 @@ func VerifH_C20_Filters() {
 	vrt.Assert(got == want, "c20.filtered-equals-pruned-unfiltered")
 }
 
-// VerifH_C20_Combinators: truth tables of the filter combinators over a mock node.
+// VerifH_C20_Combinators: truth tables of the filter predicates and combinators over
+// the five node classes a filter can meet: a configuration node, a state node, and the
+// three operational-command node kinds (command, option, argument), which are neither.
 func VerifH_C20_Combinators() {
-	cfg := vrt.Bool("config")
+	kind := vrt.Choice("node", 5) // 0 config, 1 state, 2 opd command, 3 opd option, 4 opd argument
 	text := "module m { namespace 'urn:m'; prefix m; leaf t { type string; } leaf s { type string; config false; } }"
 	ms, err := compileTexts(map[string]string{"m": text}, featSet{}, nil)
 	if err != nil {
 		vrt.Assert(false, "c20.comb.compiles")
 		return
 	}
-	n := ms.Child("s")
-	if cfg {
+	var n schema.Node
+	str := schema.NewString(xml.Name{Local: "string"}, nil, nil, nil, "", false)
+	switch kind {
+	case 0:
 		n = ms.Child("t")
+	case 1:
+		n = ms.Child("s")
+	case 2:
+		n, err = schema.NewOpdCommand("c", "urn:m", "m", "", "", "", false, false, false, false, false, schema.Current, nil)
+	case 3:
+		n, err = schema.NewOpdOption("o", "urn:m", "m", "", "", "", "", false, false, false, false, false, false, str, schema.Current, nil)
+	default:
+		n, err = schema.NewOpdArgument("a", "urn:m", "m", "", "", "", "", false, false, false, false, false, false, str, schema.Current, nil)
 	}
+	if err != nil || n == nil {
+		vrt.Assert(false, "c20.comb.node-built")
+		return
+	}
+	cfg, state, opd := kind == 0, kind == 1, kind >= 2
 	vrt.Reach("c20.combinators")
 	vrt.Assert(IsConfig(n) == cfg, "c20.comb.IsConfig")
-	vrt.Assert(IsState(n) == !cfg, "c20.comb.IsState")
-	vrt.Assert(!IsOpd(n), "c20.comb.IsOpd")
-	vrt.Assert(Include(IsConfig, IsState)(n), "c20.comb.Include")
+	vrt.Assert(IsState(n) == state, "c20.comb.IsState")
+	vrt.Assert(IsOpd(n) == opd, "c20.comb.IsOpd")
+	vrt.Assert(Include(IsConfig, IsState)(n) == (cfg || state), "c20.comb.Include")
+	vrt.Assert(IsConfigOrState()(n) == (cfg || state), "c20.comb.IsConfigOrState")
+	vrt.Assert(Include(IsOpd, IsState)(n) == (opd || state), "c20.comb.Include-opd-state")
 	vrt.Assert(Include()(n) == false, "c20.comb.Include-empty")
-	vrt.Assert(Exclude(IsState)(n) == cfg, "c20.comb.Exclude")
+	vrt.Assert(Exclude(IsState)(n) == !state, "c20.comb.Exclude")
+	vrt.Assert(Exclude(IsConfig, IsOpd)(n) == state, "c20.comb.Exclude-two")
 	vrt.Assert(Exclude()(n), "c20.comb.Exclude-empty")
-	vrt.Assert(IncludeState(true)(n) == !cfg, "c20.comb.IncludeState-true")
-	vrt.Assert(IncludeState(false)(n) == cfg, "c20.comb.IncludeState-false")
+	// "state included" means state only; "state not included" means everything but state
+	vrt.Assert(IncludeState(true)(n) == state, "c20.comb.IncludeState-true")
+	vrt.Assert(IncludeState(false)(n) == !state, "c20.comb.IncludeState-false")
+	vrt.Assert(Include(IsConfig, IncludeState(false))(n) == !state, "c20.comb.config-schema-filter")
+	vrt.Assert(Exclude(IncludeState(false))(n) == state, "c20.comb.Exclude-of-IncludeState")
 	vrt.Assert(Include(nil, IsConfig)(n) == cfg, "c20.comb.Include-nil-tolerated")
 }
